@@ -263,6 +263,8 @@ def reinit_histories(rng, count):
             new = max(0, new) & 0xffff
             addr[k] = new
             ops += [(11, k, new), (0,)] + probe()
+            if rng.random() < 0.25:
+                ops += [(12, rng.randrange(2))] + probe()      # the byte order switched in mid-life: the same words read the other way
             if rng.random() < 0.3:
                 ops += [(0,)] + probe()
         yield tab.line(ops)
